@@ -20,6 +20,8 @@ func vpC13Roles(s string) []string {
 		"SecAction \"id:2,phase:1,pass,ctl:ruleRemoveTargetById=1;ARGS:/" + s + "/\"\nSecRule ARGS \"@streq v\" \"id:1,phase:1,deny,status:407\"\n",
 		"SecRule ARGS|!ARGS:/" + s + "/ \"@streq v\" \"id:1,phase:1,deny,status:408\"\n",
 		"SecRule ARGS \"@rx " + s + "\" \"id:1,phase:1,deny,status:409\"\n",
+		// a regex key on a collection whose keys are lower-cased (the pattern is lower-cased too)
+		"SecRule REQUEST_HEADERS:/" + s + "/ \"@streq v\" \"id:1,phase:1,deny,status:410\"\n",
 	}
 }
 
@@ -35,6 +37,7 @@ func vpC13Build(conf string) (*corazawaf.WAF, error) {
 func vpC13Probe(waf *corazawaf.WAF, name, val string) (int, int) {
 	tx := waf.NewTransaction()
 	tx.AddGetRequestArgument(name, val)
+	tx.AddRequestHeader(name, val)
 	tx.ProcessRequestHeaders()
 	st, n := 0, len(tx.MatchedRules())
 	if it := tx.Interruption(); it != nil {
@@ -50,7 +53,7 @@ func vpC13Probe(waf *corazawaf.WAF, name, val string) (int, int) {
 // construction must succeed and B must answer every probe as when it is built alone with an
 // empty cache.
 func VpC13Cache() {
-	s := []string{"abc", "a.c", "u{id}"}[vp.Choice("string", 3)]
+	s := []string{"abc", "a.c", "u{id}", "Abc"}[vp.Choice("string", 4)]
 	roles := vpC13Roles(s)
 	ra := vp.Choice("roleA", len(roles))
 	rb := vp.Choice("roleB", len(roles))
